@@ -284,6 +284,79 @@ def scenarios(tier, rnd):
     return out
 
 
+# ------------------------------------------------------------------ shutdown handshake (client-core script runner)
+def shutdown_handshake_scripts(rnd, thorough):
+    """the peer ends — or silences — the stream at every point of the shutdown handshake: before it has read the
+    CloseConnection request, after reading it, after any part of its response. Scripts for the generic client runner
+    (harness/llrp/client_script_test.go, language in notes/client-core.md). No CloseConnectionResponse was received in
+    full, so the stream's end is a failure of the connection: Shutdown must return (with an error) and Connect must return
+    (with an error). Judged on the observations only."""
+    import client_common as cc
+    out = []
+    resp_len = 18                                    # header + one LLRPStatus parameter
+    cuts = list(range(1, resp_len)) if thorough else [1, 5, 9, 10, 11, 14, 17]
+    points = [("unread", None), ("after-request", None)] + [("partial-response", c) for c in cuts]
+    for version in (1, 2):
+        for others in (0, 1):
+            for point, c in points:
+                for silent in (False, True):
+                    if silent and point == "unread":
+                        continue
+                    if not thorough and others and point == "partial-response" and c not in (9, 10, 14):
+                        continue
+                    b = cc.SB("c10-shutdown/%s%s/v%d/others%d%s" % (point, "" if c is None else "/cut%d" % c, version, others,
+                                                                    "/silent" if silent else ""), version=version)
+                    if silent:
+                        b.connect_step["client_timeout_ms"] = 300
+                    b.connect(cur=2, mx=2)
+                    tag = rnd.randrange(1, 1 << 20) * 64
+                    if others:
+                        b.send(1, 2, 7, tag + 1)
+                    b.op("shutdown", caller=9)
+                    if point != "unread":
+                        b.expect()
+                        close_idx = b.nseen - 1
+                    if point == "partial-response":
+                        b.steps.append(dict(op="reply", to=close_idx, typ=4, ver=version, pl=dict(k="status", code=0), cut=c))
+                    if silent:
+                        b.op("sleep", ms=480)        # longer than the read deadline; the peer neither answers nor closes
+                    else:
+                        b.op("peer_close")
+                    b.wait(9)
+                    if others:
+                        b.wait(1)
+                    b.op("wait_connect")
+                    sc = b.script()
+                    sc["family"] = "shutdown-handshake"
+                    sc["point"] = point if c is None else "%s/cut%d" % (point, c)
+                    sc["silent"] = silent
+                    out.append(sc)
+    return out
+
+
+def judge_shutdown_handshake(sc, go):
+    """-> [(signature, text)]"""
+    fails = []
+    obs = list(zip(sc["steps"], go.get("obs") or []))
+    where = "%s%s" % (sc["point"], " (peer silent past the read deadline)" if sc.get("silent") else " (peer closed the stream)")
+    for st, o in obs:
+        if st["op"] == "wait_caller":
+            who = "Shutdown" if st["caller"] == 9 else "the outstanding SendMessage"
+            if o.get("res") == "blocked":
+                fails.append(("shutdown-handshake-caller-stuck", "%s did not return after the stream ended at the point: %s" % (who, where)))
+            elif st["caller"] == 9 and o.get("res") == "nil":
+                fails.append(("shutdown-nil-without-response", "Shutdown returned nil although no complete CloseConnectionResponse arrived: %s" % where))
+        if st["op"] == "wait_connect":
+            if o.get("res") == "blocked":
+                fails.append(("shutdown-handshake-wedged", "Connect did not return although the stream ended without a (complete) "
+                              "CloseConnectionResponse — CloseConnection sent, point: %s; both loops wait for a Close nobody will call" % where))
+            elif o.get("res") == "nil":
+                fails.append(("connect-nil-error:shutdown", "Connect returned nil after the stream ended: %s" % where))
+    if (go.get("final") or {}).get("panics"):
+        fails.append(("client-panic", "panic: %s" % go["final"]["panics"]))
+    return fails
+
+
 # ------------------------------------------------------------------ running (supervised)
 def run_go(exe, jsons, timeout):
     """-> answers {index: dict}, crashes [(index, log)]; a crash is attributed to the scenario that
@@ -517,14 +590,16 @@ def run(tier, seed, replay=None):
         "scenario against (2*limit per inbound frame + 1 MiB), so only allocations that grow with the claimed length are detected by "
         "measurement; limit+1 claims are compared through the model",
         "net.Pipe stands in for TCP; 'Connect returned' is measured with a watchdog (400 ms, re-measured with 3 s before a wedge is reported)",
-        "a scenario in which the user issued Shutdown is not required to make Connect return after EOF (the documentation tells the caller to Close)",
+        "a scenario in which the user issued Shutdown AND a complete CloseConnectionResponse arrived is not required to make Connect return "
+        "after EOF (the documentation tells the caller to Close); if the stream ends or falls silent before a complete response, Connect and "
+        "Shutdown must return (family shutdown-handshake, run through the client-core script runner, judged on observations only)",
     ]
     vlib.proof_part(res, PID)
     rc, log = vlib.build_oracle("c10")
     if rc != 0:
         res.violation("oracle-build", "oracle for C10 does not build: " + log[-800:], dict(kind="build"), False)
         return res.finish()
-    ok, log, exe = vlib.build_harness("llrp", PID, ["c04_test.go", "c10_test.go"])
+    ok, log, exe = vlib.build_harness("llrp", PID, ["c04_test.go", "c10_test.go", "client_script_test.go"])
     if not ok:
         res.violation("harness-build", "Go harness does not build against the repo: " + log[-1500:], dict(kind="build"), False)
         return res.finish()
@@ -597,6 +672,30 @@ def run(tier, seed, replay=None):
                 by_sig["model-differs"] = ("implementation and session model differ where the property holds: " + "; ".join(diffs[:3]),
                                            sc, go, cl, olines[i], False, [])
             by_sig["model-differs"][6].append(sc.name)
+    # the shutdown handshake cut at every point (generic client script runner; Go only)
+    import client_common as cc
+    hs = shutdown_handshake_scripts(random.Random(seed + 17), tier == "thorough")
+    if replay:
+        rp0 = json.load(open(replay))
+        hs = [rp0["script"]] if rp0.get("script") else []
+    hgo, _ = cc.run_go(exe, hs, shards=8)
+    hs_sig = {}
+    for hsc, g in zip(hs, hgo):
+        evals += 1
+        dist["shutdown-handshake"] = dist.get("shutdown-handshake", 0) + 1
+        nontriv.add(hsc["id"])
+        if g is None or g.get("st") in ("watchdog", "skipped", "crash"):
+            hs_sig.setdefault("harness-run", ("no observation for script %s (%s)" % (hsc["id"], (g or {}).get("st")), hsc, g, False))
+            continue
+        for sig, text in judge_shutdown_handshake(hsc, g):
+            if hsc.get("silent") and sig not in hs_sig:       # real time: must fail again
+                g2, _ = cc.run_go(exe, [hsc], shards=1)
+                if g2 and g2[0] is not None and sig not in [x for x, _ in judge_shutdown_handshake(hsc, g2[0])]:
+                    continue
+            hs_sig.setdefault(sig, (text, hsc, g, True))
+    for sig, (text, hsc, g, found) in sorted(hs_sig.items()):
+        res.violation(sig, "script %s: %s" % (hsc["id"], text), dict(kind="script", script=hsc, observed=g), found_input=found)
+
     for sig, (text, sc, go, cl, ol, found, names) in sorted(by_sig.items()):
         rp = dict(kind="scenario", correspondence="C10/Connect-vs-session", scenario_names=[sc.name], scenario=sc.to_json(),
                   all_scenarios_with_this_signature=names[:40], observed=go, crash_log=(cl or "")[-3000:], expected=ol[:3000],
